@@ -516,6 +516,7 @@ class EOSMixture(Mixture):
         self._free_energy_args = {}
     
     def eos_args(self, phase, mol, T, P):
+        if mol.__class__ is not SparseVector: mol = SparseVector(mol)
         chemicals = self.chemicals
         dct = mol.dct
         eos_chemicals = self.eos_chemicals
